@@ -815,9 +815,9 @@ def rand_script(rng, wild=0.008, hist=None, max_stmts=6):
         nlocals = rng.choice([0, 1, 2, 4])
         g = HandlerGen(rng, names, len(consts), nargs, nlocals, nh, bpc=bpc, wild=wild, hist=hist)
         code = g.handler(rng.choice([0, 1, 2, 3, max_stmts]), factory=(kind == "factory"))
-        args = [rng.randrange(1, len(names)) for _ in range(nargs)]
+        args = [rng.randrange(0, len(names)) for _ in range(nargs)]
         if kind == "factory" and nargs:
-            args[0] = 0 if rng.random() < 0.8 else idx.get(b"me", 0)
+            args[0] = -1 if rng.random() < 0.8 else idx.get(b"me", 0)
         hname = rng.choice([None, b"new", b"birth", b"mNew", b"exitFrame", b"b", b"t"])
         handlers.append(dict(name=idx.get(hname, rng.randrange(len(names))) if hname else rng.randrange(-1, len(names)),
                              args=args, locals=[rng.randrange(0, len(names)) for _ in range(nlocals)], code=code))
